@@ -117,9 +117,19 @@ def chain_order(lay):
     return path
 
 
+# the physical chains of the three shipped repetition layouts (path order on the Surface-17 device); stated here, not derived
+# from the layout's own gate tables, so that a wrong table entry cannot hide itself
+CHAINS = {
+    'Repetition9Code': ['D1', 'X1', 'D2', 'X2', 'D3', 'Z2', 'D6', 'Z4', 'D5', 'Z1', 'D4', 'Z3', 'D7', 'X3', 'D8', 'X4', 'D9'],
+    'Repetition9Round6Code': ['D1', 'X1', 'D2', 'X2', 'D3', 'Z2', 'D6', 'Z4', 'D5', 'Z1', 'D4', 'Z3', 'D7', 'X3', 'D8', 'X4', 'D9'],
+    'Repetition5Round4Code': ['D3', 'Z2', 'D6', 'Z4', 'D5', 'Z1', 'D4', 'X3', 'D7'],
+}
+
+
 def layout_descs(maxlen):
+    from qce_circuit.connectivity.intrf_channel_identifier import QubitIDObj
     for lay in (Repetition9Code(), Repetition9Round6Code(), Repetition5Round4Code()):
-        code = chain_order(lay)
+        code = [QubitIDObj(n) for n in CHAINS[lay.__class__.__name__]]
         for direction in (code, list(reversed(code))):
             for a in range(len(direction)):
                 for b in range(a + 3, min(len(direction), a + maxlen) + 1):
@@ -155,6 +165,11 @@ def main(out, dmax, cmax, nlayout, seed, anc_states):
                 # requested ancilla states that are not all equal (the order of the ancillas along the chain matters)
                 ab = tuple((k + cycles) % 2 for k in range(nd - 1))
                 rows += one(desc, name, nd, bits, ab, cycles, 'main', refocus=rf)
+    # every ancilla of every shipped layout at least once with both of its chain neighbours: the shortest chains D-A-D, one
+    # cycle, neighbours in different states (an entry of a layout table that pairs the ancilla with the wrong qubit shows here)
+    for desc, name, nd, rf in lds:
+        if nd == 2 and rf and ':norefocus' not in name:
+            rows += one(desc, name, nd, (1, 0), None, 1, 'main', refocus=rf)
     json.dump(rows, open(out, 'w'))
     print(len(rows))
 
